@@ -453,14 +453,30 @@ func (s *vfSim) start() bool {
 			time.Sleep(skew)
 		}
 	}
+	// if one connect call fails the other may wait for ever: close its transport (that is what an
+	// application would do) so that both calls return
+	select {
+	case <-s.connDone[0]:
+		s.mu.Lock()
+		failed := s.connErr[0] != nil
+		s.mu.Unlock()
+		if failed {
+			_ = s.net.conns[1].Close()
+			_ = s.net.conns[0].Close()
+		}
+	case <-s.connDone[1]:
+		s.mu.Lock()
+		failed := s.connErr[1] != nil
+		s.mu.Unlock()
+		if failed {
+			_ = s.net.conns[0].Close()
+			_ = s.net.conns[1].Close()
+		}
+	}
 	<-s.connDone[0]
 	<-s.connDone[1]
 	s.estabAt = s.net.now()
-	if !s.spec.Link.FaultsFromStart {
-		s.net.armFaults()
-	} else if s.spec.Link.HealUs > 0 {
-		s.net.armFaults()
-	}
+	s.net.armFaults()
 	s.mu.Lock()
 	ok := s.connErr[0] == nil && s.connErr[1] == nil && s.assoc[0] != nil && s.assoc[1] != nil
 	s.mu.Unlock()
